@@ -178,7 +178,7 @@ func runLoaded(ld *loaded, spec *HarnessSpec, o runOpts) *OblResult {
 	switch {
 	case len(ex.viol) > 0:
 		res.Verdict = "violation"
-	case len(ex.incon) > 0 || len(res.MissingCover) > 0:
+	case len(ex.incon) > 0:
 		res.Verdict = "inconclusive"
 	default:
 		res.Verdict = "holds"
